@@ -10,6 +10,10 @@ import logging
 import os
 import sys
 
+import tqdm as _tqdm
+
+_DEVNULL = open(os.devnull, 'w')
+
 DEFAULTS = dict(
     task='ranking', minibatch_size=2 ** 14, output_folder='ranking_outputs', data_source='csv-raw', data_path=None,
     subsampling=1, combination_number_upper_bound=2 ** 15, missing_value_symbols=',{}', heuristic='MI-numba-randomized',
@@ -39,15 +43,12 @@ def cli_argv(**kw):
     return out
 
 
-class Pbar:
-    def set_description(self, *a, **k):
-        pass
+class Pbar(_tqdm.tqdm):
+    """What the code is handed in production: a real tqdm bar, ENABLED (the CLI default), written to /dev/null.  (A stub
+    with only set_description made any use of another tqdm attribute a machinery failure - seeded change C09-j.)"""
 
-    def update(self, *a, **k):
-        pass
-
-    def close(self):
-        pass
+    def __init__(self, disable=False):
+        super().__init__(total=0, file=_DEVNULL, disable=disable)
 
 
 class _Result:
